@@ -41,6 +41,7 @@ pub(crate) fn run() -> Result<(), Error> {
     let mut sh = Sha1::new();
     io::copy(&mut io::stdin(), &mut sh)?;
     let csum = format!("{:x}", sh.finalize());
+    redo::vemit!("StampInput", "csum": csum.as_str());
 
     if env.target().as_os_str().is_empty() {
         return Ok(());
